@@ -43,13 +43,11 @@ Theorem C17_reaches_split : forall raw nbufs room sp,
   parse_super raw = Some sp -> wf_super sp ->
   handle_virtio_read raw nbufs room = gso_split (s_pkt sp) (hdr_for sp (get8 raw 0)) nbufs (s_v6 sp).
 Proof. exact handle_virtio_read_wf. Qed.
-Print Assumptions C17_reaches_split.
 
 Theorem C17_no_panic : forall raw nbufs room sp,
   parse_super raw = Some sp -> wf_super sp -> 1 <= nbufs ->
   exists n e segs, handle_virtio_read raw nbufs room = Done n e segs.
 Proof. exact handle_never_panics_wf. Qed.
-Print Assumptions C17_no_panic.
 
 (* ---- the segments ---- *)
 Section Result.
@@ -100,14 +98,6 @@ Section Result.
     e = E_too_many /\ n = nbufs - 1 /\ N.of_nat (length segs) = nbufs.
   Proof. exact (proj2 (proj2 (handle_wf_result raw nbufs room sp n e segs Hparse Hwf Hbufs Hrun))). Qed.
 End Result.
-Print Assumptions C17_split_payload.
-Print Assumptions C17_split_ip.
-Print Assumptions C17_split_tcp.
-Print Assumptions C17_split_udp_len.
-Print Assumptions C17_split_headers_kept.
-Print Assumptions C17_split_checksums_valid.
-Print Assumptions C17_all_segments.
-Print Assumptions C17_too_many_segments.
 
 (* the per-segment payloads of the specification, concatenated in order, are the payload *)
 Theorem C17_payloads_concat : forall sp, s_hl sp <= len (s_pkt sp) -> 1 <= s_gso sp ->
@@ -127,7 +117,6 @@ Theorem C17_gso_none_checksum_valid : forall raw nbufs room pp,
   parse_partial raw = Some pp -> wf_partial pp -> 10 <= len raw -> len (p_pkt pp) <= room ->
   exists out, handle_virtio_read raw nbufs room = Done 1 E_none [out] /\ partial_good pp out.
 Proof. exact handle_partial_wf. Qed.
-Print Assumptions C17_gso_none_checksum_valid.
 
 (* ---- former finding F6 and what still does not hold ---- *)
 
@@ -139,6 +128,16 @@ Print Assumptions C17_udp_checksum_zero_mangled_example.
 Theorem C17_udp_checksum_zero_mangled_completion_example : exists raw, udp_zero_none_witness raw = true.
 Proof. exact udp_checksum_zero_mangled_none_example. Qed.
 Print Assumptions C17_udp_checksum_zero_mangled_completion_example.
+
+(* F6 as it was before repair 8d6518b: storing ^checksum verbatim (old_segment) puts 0x0000 into
+   the UDP checksum of segment 1 of the same witness, and clause 12 of the specification fails *)
+Theorem C17_old_udp_checksum_nonzero_refuted : exists raw seg, old_udp_zero_witness raw seg = true.
+Proof. exact old_udp_checksum_nonzero_refuted. Qed.
+Print Assumptions C17_old_udp_checksum_nonzero_refuted.
+
+Theorem C17_old_udp_checksum_nonzero_completion_refuted : exists raw, old_udp_zero_none_witness raw = true.
+Proof. exact old_udp_checksum_nonzero_none_refuted. Qed.
+Print Assumptions C17_old_udp_checksum_nonzero_completion_refuted.
 
 (* IPv6 extension headers: payload length field too small by the extension header length
    (outside wf_super; see notes/C17.md) *)
@@ -153,3 +152,11 @@ Example C17_nonvacuous_too_many : spec_on_model nonvac_raw 2 = None.
 Proof. vm_compute. reflexivity. Qed.
 Example C17_nonvacuous_f6 : spec_on_model f6_raw 8 = None.
 Proof. vm_compute. reflexivity. Qed.
+
+(* One Print Assumptions for the theorems that rest on the long proofs of GsoProofs.v (each call
+   walks the whole proof term: 1.4 s apiece when asked one by one). *)
+Definition C17_segment_theorems :=
+  (C17_reaches_split, C17_no_panic, C17_split_payload, C17_split_ip, C17_split_tcp, C17_split_udp_len,
+   C17_split_headers_kept, C17_split_checksums_valid, C17_all_segments, C17_too_many_segments,
+   C17_gso_none_checksum_valid).
+Print Assumptions C17_segment_theorems.
